@@ -41,6 +41,7 @@ type Candidate struct {
 	Known      string // id of the known finding that covers it ("" = new)
 	Replay     string // REPRODUCED / NOT-REPRODUCED / ...
 	WitnessRel string
+	Observed   []string // sampled paths: label=value as the engine computes them
 }
 
 type ObStat struct {
@@ -115,7 +116,19 @@ type Exec struct {
 	Trace       bool
 	Fixed       []Draw // concolic mode: pinned draws (consumed in order)
 	Observed    map[string][]string
+	Tier        string
+	SampleEvery int
+	Seed        int64
+	Samples     []*Candidate
+	Untrusted   []string
+	Flags       map[string]int
+	pathObs     []obsEntry
 	modelState
+}
+
+type obsEntry struct {
+	label string
+	v     value
 }
 
 // KnownPredicate excludes a recorded finding from an obligation.
@@ -131,7 +144,7 @@ func NewExec(p *Program, h *ssa.Function, solver *smt.Solver, lim Limits) *Exec 
 		PathsByEnd: map[string]int{}, Obs: map[string]*ObStat{}, Cands: map[string]*Candidate{},
 		Reached: map[string]int{}, Funcs: map[string]int{}, Models: map[string]int{},
 		Unsupported: map[string]int{}, Assumes: map[string]int{}, Forks: map[string]int{},
-		Observed: map[string][]string{},
+		Observed: map[string][]string{}, Flags: map[string]int{},
 	}
 }
 
@@ -167,6 +180,7 @@ func (ex *Exec) runPath(prefix []int) {
 	ex.steps, ex.depth, ex.errSeq, ex.objSeq, ex.timeSeq = 0, 0, 0, 0, 0
 	ex.imprecise = nil
 	ex.pathFlags = map[string]bool{}
+	ex.pathObs = nil
 	ex.modelReset()
 	if ex.solver != nil {
 		ex.solver.Push()
@@ -185,6 +199,12 @@ func (ex *Exec) runPath(prefix []int) {
 		ex.ensureInit(ex.Harness.Pkg)
 		ex.callFn(nil, token.NoPos, ex.Harness, nil)
 	}()
+	if end.kind == "return" && ex.solver != nil && len(ex.Samples) < ex.SampleEvery && isPow2(ex.PathsByEnd["return"]+1) {
+		ex.samplePath()
+	}
+	for k := range ex.pathFlags {
+		ex.Flags[k]++
+	}
 	if ex.solver != nil {
 		ex.solver.Pop()
 	}
@@ -586,3 +606,26 @@ func (ex *Exec) SortedCands() []*Candidate {
 }
 
 var _ = types.Typ
+
+func isPow2(n int) bool { return n > 0 && n&(n-1) == 0 }
+
+// samplePath asks the solver for one concrete input that follows the path just explored to a
+// normal return; it is replayed natively (translator validation: the native run must also end
+// normally and print the same Observe values).
+func (ex *Exec) samplePath() {
+	if ex.solver.Check() != smt.Sat {
+		return
+	}
+	m, err := ex.solver.Model(ex.drawVars())
+	if err != nil {
+		return
+	}
+	c := &Candidate{Obligation: "path-sample", Kind: "sample", Model: m, Path: append([]int{}, ex.trail...)}
+	for _, d := range ex.draws {
+		c.Draws = append(c.Draws, ex.concreteDraw(d, m))
+	}
+	for _, o := range ex.pathObs {
+		c.Observed = append(c.Observed, o.label+"="+ex.renderUnder(o.v, m))
+	}
+	ex.Samples = append(ex.Samples, c)
+}
